@@ -236,4 +236,23 @@ Section Solve.
                  end
         end
     end.
+
+  (* Solution::sol_many: every requested time is range-checked first (the first offender is reported and nothing is
+     evaluated); then each time is evaluated exactly as sol evaluates it, in the order given *)
+  Inductive solmany_result := SolManyOk (ys : list vec) | SolManyNotEnabled | SolManyOutOfRange (t : F).
+
+  Definition sol_many (m : method) (n : nat) (S : solution) (ts : list F) : solmany_result :=
+    match sol_segs S with
+    | None => SolManyNotEnabled
+    | Some segs =>
+        match t_span segs with
+        | None => SolManyNotEnabled
+        | Some (st, en) =>
+            let lo := fmin O st en in let hi := fmax O st en in
+            match find (fun t => (t <? lo) || (t >? hi)) ts with
+            | Some t => SolManyOutOfRange t
+            | None => SolManyOk (map (fun t => match sol_eval m n S t with SolOk y => y | _ => nil end) ts)
+            end
+        end
+    end.
 End Solve.
